@@ -10,6 +10,13 @@ fn builtin_classes() -> HashSet<PStr> {
   HashSet::from([PStr::PROCESS_TYPE, PStr::STR_TYPE, PStr::VEC_TYPE])
 }
 
+/// Whether a module can be named in an import statement: every part of its name has to be an
+/// identifier. A file like `my_module.sam` is a module, but `import { A } from my_module` is not
+/// valid syntax.
+pub fn is_importable_module(heap: &Heap, module_reference: &ModuleReference) -> bool {
+  module_reference.get_parts(heap).iter().all(|part| lexer::is_identifier(part.as_str(heap)))
+}
+
 pub fn parse_source_module_from_text(
   text: &str,
   module_reference: ModuleReference,
